@@ -101,3 +101,24 @@ fn c05_2a_commands_and_shared_time() {
     core::mem::forget(c);
     core::mem::forget(h);
 }
+
+// @ob id=C05.1c,C06.8a strength=complete tier=quick fn=clock.rs::Clock::update
+// @req a clock in any ticking state (ticking or paused, started or not); Parameter::update replaced by its recording contract stub (C06.2)
+// @ens the clock's speed parameter is advanced exactly once per update with the same dt, whether or not the clock is ticking (a speed tween issued while the clock is paused or not yet started progresses in audio time and is due when the clock starts)
+#[kani::proof]
+#[kani::unwind(7)]
+#[kani::stub(Parameter::update, crate::parameter::kani_proofs::param_update_rec)]
+fn c05_1c_speed_parameter_always_advances() {
+    use crate::parameter::kani_proofs::{PU_N, PU_DT};
+    let mut c = Clock::without_handle(Value::Fixed(ClockSpeed::TicksPerSecond(1.0)));
+    c.ticking = kani::any();
+    c.state = if kani::any() { State::NotStarted } else { State::Started { ticks: 3, fractional_position: 0.5 } };
+    let dt = pow2_dt();
+    let info = empty_info();
+    let _ = c.update(dt, &info);
+    unsafe { assert!(PU_N == 1 && PU_DT[0] == dt, "C05.1c: the speed parameter advances once per update, ticking or not"); }
+    kani::cover!(!c.ticking);
+    kani::cover!(c.ticking);
+    core::mem::forget(info);
+    core::mem::forget(c);
+}
